@@ -87,6 +87,20 @@ fn main() {
         root,
         replay,
     };
+    // wall-clock watchdog: a check that does not finish (harness or subject looping) ends as a
+    // machinery failure with a message instead of hanging; never a verdict
+    {
+        let limit = std::env::var("VERIF_WALL_LIMIT_S").ok().and_then(|s| s.parse::<u64>().ok()).unwrap_or(match tier {
+            Tier::Quick => 900,
+            Tier::Thorough => 3 * 3600,
+        });
+        let id = id.clone();
+        std::thread::spawn(move || {
+            std::thread::sleep(std::time::Duration::from_secs(limit));
+            eprintln!("MACHINERY-ERROR: {}: wall-clock limit of {} s exceeded (the harness or the code under test did not terminate); no verdict", id, limit);
+            std::process::exit(2);
+        });
+    }
     let code = std::panic::catch_unwind(std::panic::AssertUnwindSafe(|| match id.as_str() {
         "C01" => c01::run(&run),
         "C02" => c02::run(&run),
